@@ -24,9 +24,8 @@ RULE = ("cases = histories of 4-20 commands of the C06 generator plus remove (re
 TRUSTED = ["fork-per-command runner and tree hash of harness/lib_db.py (every file and directory name under each "
            "stack, cache files `*.pickleDB*` excluded)",
            "the AST walk of harness/c15_guardmap.py recognises write calls by the name of the callee"]
-ASSUMPTIONS = ["external files (-L) and interned table files are not generated: their writes are covered by the guard "
-               "map only (os.makedirs / utils.copyfile under `else of: if self.noaction`); the temporary file of an "
-               "interned table lives outside the stacks",
+ASSUMPTIONS = ["interned table files (tablefile given as a stream) are not generated: their writes are covered by the guard "
+               "map only; the temporary file of an interned table lives outside the stacks",
                "remove: table files declare no dependencies, so the recursive collection is the product itself"]
 
 WORKERS = c06.WORKERS
@@ -57,6 +56,8 @@ def check_case(ctx, case, steps, msteps):
             ctx.fail("reader_total", sub, impl_obs, model_obs, note="fresh reader raised %s" % (rec["db"]["error"],))
             return
         c06.oracle_i(ctx, i, sub, rec, impl_obs, model_obs)
+        if cmd.get("ext"):
+            ctx.hist("%s with external files/%s" % ("dry run" if cmd.get("noaction") else "declare", rec["out"]))
         if cmd.get("noaction"):
             ctx.hist("dry %s/%s" % (c06.kind_of(cmd), rec["out"]))
             if rec.get("hash_same") is False:
@@ -97,6 +98,10 @@ def gen_case(rng):
     return with_twins(h)
 
 
+def _shrinker():
+    return c06.make_shrinker("C15", c06._run_one, check_case, "c15")
+
+
 def run(ctx):
     guard_map(ctx)
     cases = c06.corpus_cases("C15")
@@ -104,11 +109,12 @@ def run(ctx):
     evaluate(ctx, cases)
     n = ctx.n(260, 8000)
     done = 0
-    soft = ctx.t0 + (100 if ctx.tier == "quick" and not ctx.escalated else 1e9)
+    soft = ctx.t0 + (85 if ctx.tier == "quick" and not ctx.escalated else 1e9)
     while done < n and not ctx.out_of_time() and time.time() < soft:
-        k = min(60, n - done)
+        k = min(48, n - done)
         evaluate(ctx, [gen_case(ctx.rng) for _ in range(k)])
         done += k
+    _shrinker()[2](ctx)
     dry = sum(v for k, v in ctx.histogram.items() if k.startswith("dry "))
     if ctx.evaluations > 20 and dry < 3 * ctx.evaluations:
         raise common.InfraError("degenerate distribution: %d dry runs in %d histories" % (dry, ctx.evaluations))
@@ -127,6 +133,7 @@ def search(ctx):
 
 
 def replay(ctx, rp):
+    common.import_eups()
     case = rp["input"]
     if "guard_map" in case:
         fresh = c15_guardmap.summarise(c15_guardmap.extract(common.REPO))
